@@ -1,5 +1,6 @@
 # self-validation battery (see runner.py): mutants must be reported under the named rule, neutral rewrites must stay silent
 MUTANTS = [
+    {'name': 'revert: own slur/tuplet lists', 'revert': 'its own slur/tuplet lists', 'expect': '|SHARE-copy|'},
     {'name': 'revert: fresh iterator per iteration', 'revert': 'fresh iterator per iteration', 'expect': 'ITER'},
     {'name': 'revert: transposes every note of the copy', 'revert': 'transposes every note of the copy', 'expect': 'F1'},
     {'name': 'pretty printing stores on the part', 'file': 'partitura/score.py', 'old': '    def pretty(self):', 'new': '    def pretty(self):\n        self._pretty_calls = getattr(self, "_pretty_calls", 0) + 1\n        return self._pretty()\n\n    def _pretty(self):', 'expect': 'F1'},
